@@ -24,27 +24,27 @@ def drvStep (_ : Unit) (args : List String) : Unit × String :=
       let r := sweep 0 0 as
       ((), s!"{requests 0 as} " ++ (if r.isEmpty then "-" else joinWith "," (r.map fun p => s!"{p.1}{if p.2 then "r" else "f"}")))
     | none => ((), "bad-op")
-  | ["recoverres", key, ver, knows] =>
+  | ["recoverres", key, ver, knows, wf] =>
     -- reservation-only account (incompleteAcctFromErr): initiated, initial batch key, no outpoint / tx
-    match key.toNat?, ver.toNat?, bool? knows with
-    | some key, some ver, some knows =>
+    match key.toNat?, ver.toNat?, bool? knows, bool? wf with
+    | some key, some ver, some knows, some wf =>
       let a : Acct := { state := .initiated, outpoint := ⟨0, 0⟩, value := 500000, expiry := 5000, version := ver,
                         bk := 0, heightHint := 900, latestTx := none }
       let t : Tx := { id := 1, spends := [], outs := [(1, a.out key)], signed := true, wit := 0 }
-      let r := step (AState.init key) (.recover a (if knows then [t] else []))
+      let r := step { AState.init key with walletFail := wf } (.recover a (if knows then [t] else []))
       ((), render {} { accts := [r.1] } (fmtRes r.2))
-    | _, _, _ => ((), "bad-op")
-  | ["recover", srv, ver, knows, inLatest] =>
-    match srv.toNat?, ver.toNat?, bool? knows, bool? inLatest with
-    | some srv, some ver, some knows, some inLatest =>
+    | _, _, _, _ => ((), "bad-op")
+  | ["recover", srv, ver, knows, inLatest, wf] =>
+    match srv.toNat?, ver.toNat?, bool? knows, bool? inLatest, bool? wf with
+    | some srv, some ver, some knows, some inLatest, some wf =>
       let key := 1
       let a0 := recovered srv ⟨1, 1⟩ 500000 5000 ver 2 900 none
       let t : Tx := { id := 1, spends := [], outs := [(1, a0.out key)], signed := true, wit := 0 }
       let other : Tx := { id := 2, spends := [], outs := [], signed := true, wit := 0 }
       let a := recovered srv ⟨1, 1⟩ 500000 5000 ver 2 900 (some (if inLatest then t else other))
-      let r := step (AState.init key) (.recover a (if knows then [t] else []))
+      let r := step { AState.init key with walletFail := wf } (.recover a (if knows then [t] else []))
       ((), render {} { accts := [r.1] } (fmtRes r.2))
-    | _, _, _, _ => ((), "bad-op")
+    | _, _, _, _, _ => ((), "bad-op")
   | _ => ((), "bad-op")
 
 end Pool.C20
